@@ -11,6 +11,25 @@ pub fn main(args: &[String]) -> i32 {
     for s in [site::HL_R_GEN, site::HL_R_INC, site::HL_R_PTR, site::HL_W_SWAPPED, site::HL_B_FLIP, site::HL_W_FREE, site::HL_B_FIRST] {
         director::set_rule(s, RuleSpec { mode: mode::DELAY, p: 8192, max: 300, ..Default::default() });
     }
+    // outer watchdog: a round normally takes milliseconds; a writer that never returns is C18's subject, here it
+    // only makes the run inconclusive (quickly)
+    let progress = std::sync::Arc::new(std::sync::atomic::AtomicU64::new(0));
+    {
+        let progress = progress.clone();
+        std::thread::spawn(move || {
+            let mut last = (0u64, crate::now_ms());
+            loop {
+                std::thread::sleep(std::time::Duration::from_millis(500));
+                let p = progress.load(std::sync::atomic::Ordering::SeqCst);
+                if p != last.0 {
+                    last = (p, crate::now_ms());
+                } else if crate::now_ms() - last.1 > 60_000 {
+                    emit(&J::obj().set("type", J::s("inconclusive")).set("reason", J::s("a half-lock round made no progress for 60 s (writer or reader does not return)")));
+                    unsafe { libc::_exit(2) };
+                }
+            }
+        });
+    }
     let mut reads = 0;
     let mut nested = 0;
     let mut updates = 0;
@@ -19,6 +38,7 @@ pub fn main(args: &[String]) -> i32 {
     let mut nviol = 0;
     for r in 0..rounds {
         let st = crate::p_halflock::run(4 + (r % 3) as usize, 1 + (r % 3) as usize, 20_000, 4_000, 3 + (r % 4) as usize);
+        progress.fetch_add(1, std::sync::atomic::Ordering::SeqCst);
         reads += st.reads;
         nested += st.nested_reads;
         updates += st.updates;
